@@ -896,8 +896,87 @@ static Path64 rect_polyline(Rng& r, int G, int steps) {
   return p;
 }
 
+// ---- deep nesting ("arbitrarily deep nesting" in the property's quantifier): chains of 130..700 nested contours, so
+// that every depth counter, owner walk and recursion of the tree build is taken past 2^7, 2^8 and 2^9. Rectilinear
+// chains are rectangles on a lattice of pitch >= 2 (independent x/y gaps), general-position chains are scaled copies
+// of one convex integer polygon, each shifted by less than a third of the ring spacing. The fill rule / orientation
+// pattern makes every contour a boundary of the solution (EvenOdd, or alternating orientations under
+// NonZero/Positive/Negative), so the tree is as deep as the chain is long.
+static bool gen_deep_chain(Rng& r, bool rect, int N, Paths64& S, Paths64& C, int64_t& scale_out) {
+  S.clear(); C.clear(); scale_out = 0;
+  const int pattern = r.irange(0, 2);           // 0: all one orientation, 1: alternating orientations, 2: alternating, odd rings as clip
+  auto put = [&](Path64 p, int k) {
+    bool want_pos = (pattern == 0) ? true : (k % 2 == 0);
+    if ((area2(p) > 0) != want_pos) std::reverse(p.begin(), p.end());
+    if (pattern == 2 && (k % 2 == 1)) C.push_back(p); else S.push_back(p);
+  };
+  if (rect) {
+    static const int64_t kS[] = { 2, 3, 7, 1000, (int64_t)1 << 20, (int64_t)1 << 40 };
+    const int64_t s = kS[r.irange(0, 5)]; scale_out = s;
+    int64_t l = 0, b = 0, rr = 0, t = 0;
+    std::vector<Path64> rings;
+    // built from the inside out
+    l = -r.irange(1, 4); rr = r.irange(1, 4); b = -r.irange(1, 4); t = r.irange(1, 4);
+    for (int k = 0; k < N; ++k) {
+      rings.push_back(Path64{ Point64(l * s, b * s), Point64(rr * s, b * s), Point64(rr * s, t * s), Point64(l * s, t * s) });
+      l -= r.irange(1, 3); rr += r.irange(1, 3); b -= r.irange(1, 3); t += r.irange(1, 3);
+    }
+    for (int k = 0; k < N; ++k) put(rings[N - 1 - k], k);      // k = depth from the outside
+    const int64_t ox = r.coin() ? r.range(-s * 1000, s * 1000) : 0, oy = r.coin() ? r.range(-s * 1000, s * 1000) : 0;
+    for (auto* pp : { &S, &C }) for (auto& p : *pp) for (auto& pt : p) { pt.x += ox; pt.y += oy; }
+    return true;
+  }
+  // general position: convex integer polygon round the origin, n = 3..9 vertices on a jittered circle of radius 40..400
+  for (int attempt = 0; attempt < 8; ++attempt) {
+    S.clear(); C.clear();
+    const int n = r.irange(3, 9); const double R0 = 40 + 360 * r.unit(); const double a0 = 6.283185307179586 * r.unit();
+    Path64 P;
+    for (int q = 0; q < n; ++q) { double a = a0 + 6.283185307179586 * (q + 0.3 * (r.unit() - 0.5)) / n; P.push_back(Point64((int64_t)std::llround(R0 * std::cos(a)), (int64_t)std::llround(R0 * std::sin(a)))); }
+    const double inr = R0 * std::cos(3.141592653589793 * 0.65 / (n < 4 ? 3 : n) * (n == 3 ? 1.54 : 1.0));   // conservative inradius estimate
+    const int64_t jit = (int64_t)(inr / 4) - 2;
+    if (jit < 1) continue;
+    const int64_t mexp = r.irange(0, 3) == 0 ? r.irange(20, 40) : 0;
+    const int64_t mul = (int64_t)1 << mexp;
+    for (int k = 0; k < N; ++k) {
+      const int64_t f = (int64_t)(N - k);      // outermost first
+      const int64_t dx = r.range(-jit, jit), dy = r.range(-jit, jit);
+      Path64 p; for (auto& v : P) p.push_back(Point64((v.x * f + dx) * mul, (v.y * f + dy) * mul));
+      put(p, k);
+    }
+    if (gp_premise(S, C, Paths64())) return true;
+  }
+  return false;
+}
+
 void vf_case(Ctx& ctx, uint64_t i) {
   Rng& r = ctx.rng;
+  if (ctx.optstr("mode", "") == "deep") {
+    Case c;
+    const bool rect = (i % 2) == 1;
+    static const int kN[] = { 130, 200, 255, 256, 257, 300, 400, 511, 513, 700 };
+    const int N = kN[(i / 2) % 10] + (int)((i / 20) % 3);
+    Paths64 S, C; int64_t s = 0;
+    if (!gen_deep_chain(r, rect, N, S, C, s)) { ctx.count("deep_gp_gave_up"); return; }
+    // every contour must be a boundary of the solution: uniform orientation -> EvenOdd (Union or Xor with no clip);
+    // alternating orientations in the subject -> windings 1,0,1,0: EvenOdd/NonZero/Positive agree (Union);
+    // odd rings as clip -> Xor under EvenOdd
+    int fr = 0, ct = 2;
+    if (!C.empty()) { ct = 4; fr = 0; }
+    else if ((area2(S[0]) > 0) == (area2(S[1]) > 0)) { fr = 0; ct = r.coin() ? 2 : 4; }
+    else { fr = r.irange(0, 2); ct = 2; }
+    c.seti("ct", ct);
+    c.seti("fr", fr); c.seti("rev", (int)(i / 2) & 1); c.seti("pc", (int)(i / 4) & 1);
+    c.seti("shape", rect ? 31 : 30); c.seti("rect", rect ? 1 : 0);
+    if (rect) c.seti("scale", s); else c.seti("mag", 0);
+    c.seti("deep_chain", N);
+    c.p64["S"] = S; if (!C.empty()) c.p64["C"] = C;
+    const int64_t M = max_abs_coord(concat(S, C));
+    int prec = -1; if (i % 3 == 0 && (ld)M * 1024.0L <= 4.5e15L) prec = (int)((i / 3) % 3);
+    c.seti("prec", prec);
+    ctx.count(rect ? "deep_chain_scenes_rect" : "deep_chain_scenes_gp");
+    judge(ctx, c, false);
+    return;
+  }
   const int combo = (int)(i % 64);
   const int kind = (int)((i / 64) % 8);
   Case c;
